@@ -19,9 +19,11 @@ def WfSource (src : KVs) : Prop :=
 /-- the including document's resource sections are absent, null or mappings -/
 def WfTarget (tgt : KVs) : Prop := ∀ k, k ∈ resourceKinds → ∃ to, targetSection k tgt = some to
 
-/-- section `k` defines some name on both sides with different values -/
-def ConflictAt (src tgt : KVs) (k : String) : Prop :=
-  ∃ f to n a c, lookup k src = some (.map f) ∧ targetSection k tgt = some to ∧ (n, a) ∈ f ∧ lookup n to = some c ∧ a ≠ c
+/-- section `k` defines some name on both sides with values that are not the same (`same` = `reflect.DeepEqual`, or
+`sameResource`: equal after resolving relative paths against the including project's directory) -/
+def ConflictAt (same : String → Val → Val → Bool) (src tgt : KVs) (k : String) : Prop :=
+  ∃ f to n a c, lookup k src = some (.map f) ∧ targetSection k tgt = some to ∧ (n, a) ∈ f ∧ lookup n to = some c ∧
+    same k a c = false
 
 /-- the definition of resource `n` of kind `k` in a model, if any -/
 def resourceOf (m : KVs) (k n : String) : Option Val :=
